@@ -473,3 +473,33 @@ Section Fsi.
     inversion H; subst. eapply build_paths_structural. exact E.
   Qed.
 End Fsi.
+
+(* ---------------------------------------------------------------- the leaf hypothesis cannot be dropped
+   With a SegmentsIntersect that reports an intersection for two segments sharing an end point (prevOp->pt ==
+   nextNextOp->pt), DoSplitOp links prevOp directly to nextNextOp (its guard `ip == prevOp->pt` skips the insertion of
+   ip) and outrec->pts becomes a node equal to its successor; BuildPath64 never compares the last emitted vertex with
+   the first, so the path is emitted with equal first and last vertex.  This is why C03_structural carries [leaf_ok]
+   and why the check validates that hypothesis on the real SegmentsIntersect. *)
+Definition bad_seg_isect (a b c d : pt) : bool :=
+  pt_eqb a (0, 0) && pt_eqb b (10, 0) && pt_eqb c (10, 10) && pt_eqb d (0, 0).
+
+Definition bad_ring : list pt := [(10, 0); (10, 10); (0, 0); (0, 10); (-5, 5); (0, 0)].
+
+Lemma bad_seg_isect_not_leaf_ok : ~ leaf_ok bad_seg_isect.
+Proof.
+  intros H. destruct (H (0, 0) (10, 0) (10, 10) (0, 0) eq_refl) as [_ [H2 _]]. apply H2. reflexivity.
+Qed.
+
+Lemma structural_needs_leaf_hypothesis :
+  exists seg_isect isect_pt area_ring area_tri dot_neg pc rev fuel ring out,
+    finalize seg_isect isect_pt area_ring area_tri dot_neg pc rev fuel ring = Some out /\ ~ Forall good out.
+Proof.
+  exists bad_seg_isect, (fun a _ _ _ => a), (fun _ => 10%float), (fun _ _ _ => 0%float), (fun _ _ _ => false),
+         true, false, 200%nat, bad_ring, [[(0, 0); (0, 10); (-5, 5); (0, 0)]].
+  split; [vm_compute; reflexivity|].
+  intros H. inversion H as [|p ps [_ Hd] _]. vm_compute in Hd. discriminate.
+Qed.
+
+(* the hypotheses of the structural theorem are satisfiable *)
+Example leaf_ok_satisfiable : leaf_ok (fun _ _ _ _ => false).
+Proof. intros a b c d H. discriminate. Qed.
